@@ -725,6 +725,8 @@ def check(run):
             grp = [list(g) for g in ca["groups"]][:NGROUPS[comp]] if (len(ca["groups"]) >= NGROUPS[comp] and comp not in DISJOINT and r.random() < 0.5) else \
                 G.gen_groups(r, len(ca["atoms"]), NGROUPS[comp], disjoint=(comp in DISJOINT), minsize=2 if comp in ("selfCoordNum", "gyration", "inertia", "dipoleMagnitude") else 1, dup=0.1)
             cb = {"comp": comp, "pbc": ca["pbc"], "params": prb, "groups": grp, "atoms": ca["atoms"], "cell": ca["cell"]}
+            if comp in ("selfCoordNum", "gyration", "inertia", "dipoleMagnitude") and len(G.dedup(grp[0])) < 2:
+                cb = None; continue
             if well_conditioned(cb):
                 break
             cb = None
